@@ -119,6 +119,7 @@ func vspecAckType(s message.Type) bool {
 //@   ensures[C13:size] aq.size == 2*old(aq.size) && aq.count == old(aq.count) && aq.head == 0 && fresh(arr(aq.ring)) && fresh(aq.emap)
 //@   ensures[C13:view] forall(0, int(aq.count), func(j int) bool { return aq.ring[j] == old(vdefView(aq, j)) })
 //@   ensures[C13:keys] forall(0, 65536, func(k int) bool { return haskey(aq.emap, k) == old(haskey(aq.emap, k)) })
+//@   ensures[sep] (aq.emap == old(aq.emap) || fresh(aq.emap)) && (arr(aq.ring) == old(arr(aq.ring)) || fresh(arr(aq.ring)))
 //@   modifies aq.size, aq.mask, aq.ring, aq.head, aq.tail, aq.emap
 
 //@ func newAckqueue
@@ -145,6 +146,7 @@ func vspecAckType(s message.Type) bool {
 //@        && fresh(arr(vdefView(aq, old(aq.count)).Msgbuf)) && len(vdefView(aq, old(aq.count)).Ackbuf) == 0
 //@   ensures[C13:bufs] preservedarrays(aq.ring[0].Msgbuf)
 //@   ensures[C02:keepid] old(message.vspecPacketID(ifaceval(msg, *message.header).packetID)) != 0 || !old(ifaceval(msg, *message.header).dirty) ==> message.vspecPacketID(ifaceval(msg, *message.header).packetID) == old(message.vspecPacketID(ifaceval(msg, *message.header).packetID))
+//@   ensures[sep] (aq.emap == old(aq.emap) || fresh(aq.emap)) && (arr(aq.ring) == old(arr(aq.ring)) || fresh(arr(aq.ring)))
 //@   modifies aq.size, aq.mask, aq.ring, aq.head, aq.tail, aq.count, aq.emap, elems(aq.ring), mapof(aq.emap), ifaceval(msg, *message.header).remlen, ifaceval(msg, *message.header).dirty, ifaceval(msg, *message.header).packetID, message.gPacketID
 
 // ---- locks (DESIGN 2.5): Lock requires the lock not to be held by this goroutine, Unlock requires it held;
@@ -194,6 +196,7 @@ func vspecAckType(s message.Type) bool {
 //@   ensures[C13:bufs] preservedarrays(aq.ring[0].Msgbuf)
 //@   ensures[C02:keepid] old(message.vspecPacketID(ifaceval(msg, *message.header).packetID)) != 0 || !old(ifaceval(msg, *message.header).dirty) ==> message.vspecPacketID(ifaceval(msg, *message.header).packetID) == old(message.vspecPacketID(ifaceval(msg, *message.header).packetID))
 //@   ensures[ghostdef-wait] gfield(aq, "nwait") == old(gfield(aq, "nwait"))+1 && gfield(aq, "lastwait") == ifaceval(msg, *message.header)
+//@   ensures[sep] (aq.emap == old(aq.emap) || fresh(aq.emap)) && (arr(aq.ring) == old(arr(aq.ring)) || fresh(arr(aq.ring)))
 //@   modifies aq.size, aq.mask, aq.ring, aq.head, aq.tail, aq.count, aq.emap, aq.ping, elems(aq.ring), mapof(aq.emap), ifaceval(msg, *message.header).remlen, ifaceval(msg, *message.header).dirty, ifaceval(msg, *message.header).packetID, message.gPacketID, heap("GF.clock"), heap("GF.mlockedAt"), gfield(aq, "nwait"), gfield(aq, "lastwait")
 
 // Acked: hands back the answered ping (if any) followed by the maximal prefix of the FIFO whose entries have reached
